@@ -135,7 +135,8 @@ class C11(Check):
                 pass
             out.append(result(HELD, cls="corrfunc-ddonly", nontrivial=False))
             return
-        cf = gen.gen_corrfunc(rng, nb, npatch, case["auto"], members=members, sparsity=sparsity, special=True)
+        cf = gen.gen_corrfunc(rng, nb, npatch, case["auto"], members=members, sparsity=sparsity, special=True,
+                              independent_weights=case["seed"] % 3 == 0)
         path = tmp / "cf.hdf"
         try:
             cf.to_file(path)
@@ -174,7 +175,7 @@ class C11(Check):
 
         nb, npatch, auto = int(rng.integers(1, 9)), int(rng.integers(1, 13)), bool(rng.random() < 0.5)
         binning = gen.gen_binning(rng, nb)
-        nc = gen.gen_normalised_counts(rng, binning, npatch, auto, special=True)
+        nc = gen.gen_normalised_counts(rng, binning, npatch, auto, special=True, independent_weights=case["seed"] % 2 == 0)
         n = 0
         for name, obj, cls in (("binning", binning, Binning), ("counts", nc.counts, PatchedCounts),
                                ("sum_weights", nc.sum_weights, PatchedSumWeights), ("normalised", nc, NormalisedCounts)):
@@ -346,6 +347,16 @@ class C11(Check):
             kw["patch_centers"] = AngularCoordinates(cen)
         cat = Catalog.from_dataframe(tmp / "cat", pd.DataFrame(cols), max_workers=1, **kw)
         back = Catalog(tmp / "cat", max_workers=1)
+        for getter in ("get_sum_weights", "get_num_records"):
+            ga, gb = np.asarray(getattr(cat, getter)()), np.asarray(getattr(back, getter)())
+            if ga.dtype != gb.dtype or not np.array_equal(ga, gb):
+                bad(f"catalog-cache:{getter}-differs", dict(created=ga.tolist(), reopened=gb.tolist(), dtypes=[str(ga.dtype), str(gb.dtype)]))
+        for pid in (cat if list(back.keys()) == list(cat.keys()) else []):
+            ma, mb = cat[pid].meta, back[pid].meta
+            if type(ma.sum_weights) is not type(mb.sum_weights) or ma.sum_weights != mb.sum_weights or type(ma.num_records) is not type(mb.num_records):
+                bad("catalog-cache:metadata-value-or-type-differs", dict(patch=pid, created=repr(ma.sum_weights), reopened=repr(mb.sum_weights),
+                                                                        types=[type(ma.sum_weights).__name__, type(mb.sum_weights).__name__]))
+                break
         if list(back.keys()) != list(cat.keys()):
             bad("catalog-cache:keys-differ", dict(got=list(back.keys()), want=list(cat.keys())))
         else:
